@@ -1,14 +1,14 @@
 SPECIFICATION Spec
 CONSTANTS
-  Files = {1}
+  Files = {1, 2}
   Texts = {3}
-  Classes = {"io", "simple", "proto", "stop", "remote"}
-  MaxInject = 1
+  Classes = {"stop", "remote"}
+  MaxInject = 0
   MaxNoise = 0
   WithBg = FALSE
   WithDead = {}
   AsCoded = FALSE
-  Mutant = "none"
+  Mutant = "listall"
 INVARIANTS TypeOK ToldAtMostOnce ToldUnlessPeerKnows KindMatchesTraceback ShownIsSent OnlyCreated TermResetOnce DrainBounded
 
 CHECK_DEADLOCK FALSE
